@@ -124,7 +124,7 @@ func (c *vC09Case) norm() {
 func TestVerifCadenceC09(t *testing.T) {
 	seed := uint64(vEnvInt("VERIF_SEED", 1))
 	n := vEnvInt("VERIF_N", 5)
-	out := newVOut("C09", "From V Require Import Base.Common Model.C09_Metrics Model.C09_Check.\nOpen Scope Z_scope.",
+	out := newVOut("C09", "From V Require Import Base.Common Model.C09_Metrics Model.C09_Check.\nOpen Scope N_scope.",
 		"(N * c09case)", "Definition R := Eval vm_compute in failing cases.\nPrint R.")
 	out.idBase += 600000
 	defer out.close()
